@@ -79,6 +79,15 @@ impl Dependencies {
 
 impl ToTokens for Dependencies {
     fn to_tokens(&self, tokens: &mut TokenStream) {
+        // Verification hook: drive the (hash-order dependent) emission order deterministically.
+        #[cfg(ts_rs_verif)]
+        if let Some(lines) = verif_order(self) {
+            tokens.extend(quote![
+                #(#lines;)*
+            ]);
+            return;
+        }
+
         let lines = self.dependencies.iter();
 
         tokens.extend(quote![
@@ -99,4 +108,31 @@ impl ToTokens for Dependency {
             Dependency::Type(ty) => quote![v.visit::<#ty>()],
         });
     }
+}
+
+// Verification hook: `TS_RS_VERIF_DEP_ORDER=sorted|reversed|seed:<n>` fixes the order in which
+// the dependency lines are emitted (otherwise the iteration order of a `HashSet`).
+#[cfg(ts_rs_verif)]
+fn verif_order(deps: &Dependencies) -> Option<Vec<TokenStream>> {
+    let mode = std::env::var("TS_RS_VERIF_DEP_ORDER").ok()?;
+    let mut lines: Vec<(String, TokenStream)> = deps
+        .dependencies
+        .iter()
+        .map(|d| {
+            let ts = d.to_token_stream();
+            (ts.to_string(), ts)
+        })
+        .collect();
+    lines.sort_by(|a, b| a.0.cmp(&b.0));
+    if mode == "reversed" {
+        lines.reverse();
+    } else if let Some(seed) = mode.strip_prefix("seed:") {
+        let mut state: u64 = seed.parse::<u64>().unwrap_or(0).wrapping_mul(2862933555777941757).wrapping_add(3037000493);
+        for i in (1..lines.len()).rev() {
+            state = state.wrapping_mul(6364136223846793005).wrapping_add(1442695040888963407);
+            let j = ((state >> 33) as usize) % (i + 1);
+            lines.swap(i, j);
+        }
+    }
+    Some(lines.into_iter().map(|(_, ts)| ts).collect())
 }
